@@ -140,6 +140,10 @@ def lockSec (k : Nat) (body : List Instr) : List Instr :=
 def bulk (n : Nat) (body : Nat → Instr) : List Instr :=
   [.loadSubs, .yld .loaded] ++ perShard n (fun k => lockSec k [body k])
 
+/-- the bulk purges (repaired): `for shard { lock; let subs = self.subscribers.load(); body; }` -/
+def purgeLoop (n : Nat) (body : Nat → Instr) : List Instr :=
+  perShard n (fun k => lockSec k [.loadSubs, .yld .loaded, body k])
+
 /-- The Rust functions as sequences of atomic steps (program order of table_manager.rs). -/
 def compile (n me : Nat) : Op → List Instr
   | .up =>
@@ -161,10 +165,10 @@ def compile (n me : Nat) : Op → List Instr
       ++ perShard n (fun k => lockSec k [.loadSubs, .yld .loaded, .commitSr k p])
       ++ [.ret]
   | .pol p => [.yld .op, .setPol p, .ret]
-  | .purge => [.yld .op] ++ bulk n .commitPurge ++ [.ret]
-  | .dropfam => [.yld .op] ++ bulk n .commitDropQuiet ++ [.ret]
-  | .llgr => [.yld .op] ++ bulk n .commitLlgr ++ [.ret]
-  | .lpurge => [.yld .op] ++ bulk n .commitLpurge ++ [.ret]
+  | .purge => [.yld .op] ++ purgeLoop n .commitPurge ++ [.ret]
+  | .dropfam => [.yld .op] ++ purgeLoop n .commitDropQuiet ++ [.ret]
+  | .llgr => [.yld .op] ++ purgeLoop n .commitLlgr ++ [.ret]
+  | .lpurge => [.yld .op] ++ purgeLoop n .commitLpurge ++ [.ret]
   | .sub want =>
       [.yld .op, .register want 0, .yld .registered]
       ++ (if want then perShard n (fun k => lockSec k [.snap k]) ++ [.sentinel] else [])
@@ -327,6 +331,21 @@ def setLast (l : List SubRec) (f : SubRec → SubRec) : List SubRec :=
   | [] => []
   | r :: rest => (f r :: rest).reverse
 
+/-- `TableShard::purge_notifying` around one of the bulk purges (`Table::drop`, `drop_stale`,
+    `drop_llgr_stale`): the entries of peer `me` in shard `k` that satisfy `gone` leave the table,
+    and the subscribers loaded under the lock get the pre- and post-policy withdrawal of each. -/
+def purgeStep (st : St) (me : Nat) (t : Thread) (k : Nat) (gone : Entry → Bool) : St :=
+  let ks := (peerKeysIn st me k).filter fun key => match st.rib key with
+    | some e => gone e
+    | none => false
+  let rib : Key → Option Entry := fun key =>
+    if key.peer = me ∧ key.shard = k then (st.rib key).bind fun e => if gone e then none else some e
+    else st.rib key
+  { st with rib := rib
+            queues := send st.queues t.subs (ks.flatMap fun key => [Ev.pre key none, Ev.post key none])
+            apq := sendAp st.apq t.subs (ks.flatMap fun _ => [hasAp st.addpath k me, hasAp st.addpath k me])
+            threads := updT st.threads me t }
+
 /-- One atomic step of thread `me` (the head of its program); `none` = nothing to do, or the
     step is `acquire` of a lock somebody else holds. -/
 def step (me : Nat) (st : St) : Option St :=
@@ -392,24 +411,14 @@ def step (me : Nat) (st : St) : Option St :=
         let rib : Key → Option Entry := fun key => if key.peer = me ∧ key.shard = k then none else st.rib key
         some { st with rib := rib, addpath := st.addpath.filter (· != (k, me))
                        threads := updT st.threads me { t with drop := some (k :: t.drop.getD []) } }
-    | .commitDropQuiet k =>
-        let rib : Key → Option Entry := fun key => if key.peer = me ∧ key.shard = k then none else st.rib key
-        some { st with rib := rib, threads := updT st.threads me t }
+    | .commitDropQuiet k => some (purgeStep st me t k fun _ => true)
     | .commitStale k =>
         some { st with staleGens := st.staleGens ++ gensIn st me k, addpath := st.addpath.filter (· != (k, me))
-                       threads := updT st.threads me t }
-    | .commitPurge k =>
-        let rib : Key → Option Entry := fun key =>
-          if key.peer = me ∧ key.shard = k then (st.rib key).bind fun e => if isStale st me e then none else some e
-          else st.rib key
-        some { st with rib := rib, threads := updT st.threads me t }
+                       threads := updT st.threads me { t with drop := some (k :: t.drop.getD []) } }
+    | .commitPurge k => some (purgeStep st me t k (isStale st me))
     | .commitLlgr k =>
         some { st with llgrGens := st.llgrGens ++ gensIn st me k, threads := updT st.threads me t }
-    | .commitLpurge k =>
-        let rib : Key → Option Entry := fun key =>
-          if key.peer = me ∧ key.shard = k then (st.rib key).bind fun e => if isLlgr st me e then none else some e
-          else st.rib key
-        some { st with rib := rib, threads := updT st.threads me t }
+    | .commitLpurge k => some (purgeStep st me t k (isLlgr st me))
     | .regShard k =>
         let ap := st.addpath.filter (· != (k, me))
         some { st with addpath := if t.ap then ap ++ [(k, me)] else ap, threads := updT st.threads me t }
@@ -426,7 +435,7 @@ def step (me : Nat) (st : St) : Option St :=
                        threads := updT st.threads me { t with drop := none, count := 0, gen := t.gen + 1 } }
     | .sendDownGr =>
         some { st with queues := send st.queues st.subscribers [.down me]
-                       threads := updT st.threads me { t with count := 0, gen := t.gen + 1 } }
+                       threads := updT st.threads me { t with drop := none, count := 0, gen := t.gen + 1 } }
     | .setPol p => some { st with policy := p, threads := updT st.threads me t }
     | .register want kind =>
         let s := st.nextSub
@@ -708,6 +717,8 @@ structure Obs where
   rets : List (List Ret)
   subs : List SubObs
   rib : List (Option Nat × Option Nat)    -- per universe key
+  /-- per universe key: the table holds it as a GR-retained (stale) route of an ended session -/
+  stale : List Bool
   rows : Nat × Nat
   extra : Nat
   /-- a subscriber list used inside a critical section was not the list of that moment -/
@@ -773,6 +784,9 @@ def observe (c : Case) (st : St) : Obs :=
   { rets := tids.map fun i => (st.threads i).rets
     subs := tids.flatMap fun i => (enumFrom' 0 (st.threads i).mysubs).map fun (nth, r) => subObs st u i nth r
     rib := u.map fun key => (preOf st key, postOf st key)
+    stale := u.map fun key => match st.rib key with
+      | some e => isStale st key.peer e
+      | none => false
     rows := ((st.keys.filter fun k => (st.rib k).isSome).length,
              (st.keys.filter fun k => (postOf st k).isSome).length)
     extra := 0
